@@ -1163,6 +1163,46 @@ func ruleCODEC5(c *Ctx) {
 			}
 			return true
 		})
+		// the same dispatch written as `if opcode == A || opcode == B || …`
+		ast.Inspect(opt.Body, func(nd ast.Node) bool {
+			is, ok := nd.(*ast.IfStmt)
+			if !ok {
+				return true
+			}
+			ds := splitOr(is.Cond)
+			if len(ds) < 2 {
+				return true
+			}
+			ops := map[string]bool{}
+			var subj string
+			for _, d := range ds {
+				b, ok := ast.Unparen(d).(*ast.BinaryExpr)
+				if !ok || b.Op != token.EQL {
+					return true
+				}
+				x, y := b.X, b.Y
+				cobj := ConstObj(p, y)
+				if cobj == nil {
+					cobj, x = ConstObj(p, x), y
+				}
+				if cobj == nil {
+					return true
+				}
+				if _, isOp := oi.Val[cobj.Name()]; !isOp {
+					return true
+				}
+				if subj != "" && subj != w.Src(x) {
+					return true
+				}
+				subj = w.Src(x)
+				ops[cobj.Name()] = true
+			}
+			n++
+			c.check(sameSet(ops, jump), fmt.Sprintf("optimizer/jump-set#%d", n), is,
+				"optimizer pass treats exactly the VM's jump opcodes as jumps",
+				fmt.Sprintf("optimizer treats %s as jumps, the VM jumps on %s", setStr(ops), setStr(jump)))
+			return true
+		})
 		if n < 2 {
 			c.fail("optimizer/jump-set/count", opt, fmt.Sprintf("expected the jump-destination pass and the re-targeting pass to switch on jump opcodes; found %d", n))
 		}
@@ -1379,6 +1419,37 @@ func ruleCODEC4(c *Ctx) {
 					if target == "" {
 						return true
 					}
+					// does the value become a function's NumLocals? (it is the
+					// field itself, or the value of a NumLocals key / the right
+					// side of an assignment to the field)
+					isNumLocals := func(e ast.Expr) bool {
+						if f, _ := FieldSel(p, e); f != nil {
+							return f.Name() == "NumLocals"
+						}
+						if id, ok := e.(*ast.Ident); ok {
+							if v, ok := p.TypesInfo.ObjectOf(id).(*types.Var); ok && v.IsField() {
+								return v.Name() == "NumLocals"
+							}
+						}
+						return false
+					}
+					fixes := strings.HasSuffix(target, ".NumLocals")
+					ast.Inspect(fd.Body, func(m ast.Node) bool {
+						switch y := m.(type) {
+						case *ast.KeyValueExpr:
+							if k, ok := y.Key.(ast.Expr); ok && isNumLocals(k) && w.Src(y.Value) == target {
+								fixes = true
+							}
+						case *ast.AssignStmt:
+							if len(y.Lhs) == 1 && len(y.Rhs) == 1 && isNumLocals(y.Lhs[0]) && w.Src(y.Rhs[0]) == target {
+								fixes = true
+							}
+						}
+						return true
+					})
+					if !fixes {
+						return true
+					}
 					n++
 					found := false
 					ast.Inspect(fd.Body, func(m ast.Node) bool {
@@ -1404,8 +1475,50 @@ func ruleCODEC4(c *Ctx) {
 			return n >= 2 && n == good, fmt.Sprintf("%d of %d functions that fix NumLocals reject more than 256 locals", good, n)
 		},
 		"global-index": func() (bool, string) {
+			// the whole-file arm of Compile rejects more globals than the VM
+			// has slots: a terminating `if` comparing the root table's symbol
+			// count (greater side) with GlobalsSize, itself within two bytes
 			k, ok := constOf("GlobalsSize")
-			return ok && k <= 1<<16, fmt.Sprintf("globals live in a slice of GlobalsSize=%d slots (checked by PANIC.3 on the Script path; an index beyond it is a run-time bounds error, never an alias)", k)
+			if !ok || k > 1<<16 {
+				return false, "GlobalsSize is not a constant that fits the two-byte operand"
+			}
+			comp := w.FuncDecl(p, "Compiler.Compile")
+			if comp == nil {
+				return false, "Compiler.Compile not found"
+			}
+			found := containsNode(comp.Body, func(nd ast.Node) bool {
+				is, isIf := nd.(*ast.IfStmt)
+				if !isIf || !terminates(is.Body) {
+					return false
+				}
+				// a conjunction: the comparison is one of its conjuncts
+				for _, conj := range splitAnd(is.Cond) {
+					b, okb := gtExpr(conj)
+					if !okb || (b.Op != token.GTR && b.Op != token.GEQ) {
+						continue
+					}
+					// the largest accepted count is at most the number of slots
+					lim, okl := ConstInt(p, b.Y)
+					if b.Op == token.GEQ {
+						lim--
+					}
+					if !okl || lim > k {
+						continue
+					}
+					// the greater side is a MaxSymbols() value (directly or via the if's init)
+					isMax := func(e ast.Node) bool {
+						return containsNode(e, func(m ast.Node) bool {
+							call, ok := m.(*ast.CallExpr)
+							return ok && isMethodOf(Callee(p, call), p.Types, "SymbolTable", "MaxSymbols")
+						})
+					}
+					if isMax(b.X) || (is.Init != nil && isMax(is.Init)) {
+						return true
+					}
+				}
+				return false
+			})
+			return found, fmt.Sprintf("the whole-file arm of Compile rejects more than GlobalsSize=%d global variables, the number of slots a VM has", k)
 		},
 		"builtin-index": func() (bool, string) {
 			lit := w.pkgVarLit(p, "builtinFuncs")
@@ -1557,4 +1670,12 @@ func ruleCODEC4(c *Ctx) {
 			c.fail(key, es.Call, fmt.Sprintf("%d-byte operand %s of %s is neither a fitting constant nor dominated by a comparison that bounds it: MakeInstruction truncates silently", widths[i], src, op))
 		}
 	}
+}
+
+// splitAnd returns the conjuncts of a && b && … (the expression itself otherwise).
+func splitAnd(e ast.Expr) []ast.Expr {
+	if b, ok := ast.Unparen(e).(*ast.BinaryExpr); ok && b.Op == token.LAND {
+		return append(splitAnd(b.X), splitAnd(b.Y)...)
+	}
+	return []ast.Expr{e}
 }
